@@ -308,6 +308,70 @@ def _am_msgs(r, Hs, Hl, freq, nb, tol, trunc, src, load, bs, bl):
     return out
 
 
+def check_modal_source(res):
+    """source given as a free-free MODAL model with a dense recovery matrix (mode-shape rows at the interface), with
+    fully populated modal damping; one variant has an exactly critically damped mode, which makes the state matrix
+    defective so that calcAM must fall back from the complex-mode solver to the direct solver.  Coupling reference:
+    Lagrange multipliers tying T_s x_s = T_l x_l."""
+    from pyyeti import frclim
+
+    msgs = []
+    wn = np.array([0.0, 10.0, 20.0, 30.0, 40.0])
+    Ts = np.array([[0.30, 0.20, -0.15, 0.10, 0.05], [0.30, -0.10, 0.25, 0.05, -0.20]])
+    fexc = np.array([0.30, 0.25, 0.10, -0.20, 0.15])
+    load = model(LOADS["L3"], "dash")
+    Tl = np.zeros((2, 3))
+    Tl[0, 0] = Tl[1, 2] = 1.0
+    freq = np.array([0.3, 1.1, 1.6, 3.2, 5.0, 9.0])
+    for zname, zd in (("critical", 1.0), ("half", 0.5), ("light", 0.03)):
+        b = np.diag(2 * np.array([0.0, zd, 0.03, 0.03, 0.03]) * wn)
+        b[2, 3] = b[3, 2] = 0.25
+        b[3, 4] = b[4, 3] = -0.5
+        src = (np.eye(5), b, np.diag(wn**2))
+        case = dict(part="modal", zeta=zname)
+        ns, nl, nb = 5, 3, 2
+        A = np.empty((nb, len(freq)), complex)
+        Fi = np.empty((nb, len(freq)), complex)
+        As = np.empty((nb, len(freq)), complex)
+        Hs = []
+        for j, f in enumerate(freq):
+            w = 2 * np.pi * f
+            Zs, Zl = cb_ref.dyn(*src, w), cb_ref.dyn(*load, w)
+            big = np.zeros((ns + nl + nb, ns + nl + nb), complex)
+            big[:ns, :ns] = Zs
+            big[ns : ns + nl, ns : ns + nl] = Zl
+            big[:ns, ns + nl :] = Ts.T
+            big[ns : ns + nl, ns + nl :] = -Tl.T
+            big[ns + nl :, :ns] = Ts
+            big[ns + nl :, ns : ns + nl] = -Tl
+            rhs = np.zeros(ns + nl + nb, complex)
+            rhs[:ns] = fexc
+            x = la.solve(big, rhs)
+            A[:, j] = -w * w * (Ts @ x[:ns])
+            Fi[:, j] = x[ns + nl :]
+            As[:, j] = -w * w * (Ts @ la.solve(Zs, fexc))
+            Hs.append(-w * w * Ts @ la.solve(Zs, Ts.T))
+        try:
+            with warnings.catch_warnings():
+                warnings.simplefilter("ignore")
+                r = frclim.ntfl([src[0], src[1], src[2], Ts], [load[0], load[1], load[2], Tl], As, freq)
+        except Exception as e:  # noqa
+            msgs.append((case, "ntfl with a modal source raised %r" % (e,), "modal-raise"))
+            continue
+        res.ev("ntfl/modal-source/%s" % zname)
+        eA = np.abs(r.A - A).max() / np.abs(A).max()
+        eF = np.abs(r.F - Fi).max() / np.abs(Fi).max()
+        res.err("modal source A/F rel err", max(eA, eF))
+        if not (eA <= 1e-7 and eF <= 1e-7):
+            msgs.append((case, "modal source with dense recovery matrix (zeta=%s): interface acceleration / force differ from the directly coupled system (rel err %.3g, %.3g)" % (zname, eA, eF), "modal-AF"))
+        for j in range(len(freq)):
+            P = r.SAM[:, j, :] @ Hs[j]
+            if np.abs(P - np.eye(nb)).max() > 1e-7 * max(1.0, np.linalg.cond(Hs[j])):
+                msgs.append((case, "modal source (zeta=%s): SAM(%.3g Hz) is not the inverse of T H T^T (max dev %.3g)" % (zname, freq[j], np.abs(P - np.eye(nb)).max()), "modal-AM"))
+                break
+    return msgs
+
+
 def check_errors(res):
     """documented refusal: incompatible frequency sizes"""
     from pyyeti import frclim
@@ -334,6 +398,7 @@ def shards(tier, seed):
     for s, l, d, nb in itertools.product(SOURCES, LOADS, DAMP, nbs):
         out.append(dict(part="pair", src=s, load=l, damp=d, nb=nb))
     out.append(dict(part="errors"))
+    out.append(dict(part="modal"))
     r = seed % len(out)
     return out[r:] + out[:r]
 
@@ -341,6 +406,9 @@ def shards(tier, seed):
 def _run(sh, res):
     if sh["part"] == "errors":
         return check_errors(res)
+    if sh["part"] == "modal":
+        m = check_modal_source(res)
+        return [x for x in m if "zeta" not in sh or x[0].get("zeta") == sh["zeta"]]
     nb = sh.get("nb", len(sh.get("bs", [0])))
     m = check_pair(sh["src"], sh["load"], sh["damp"], nb, res)
     if "bs" in sh:
